@@ -838,6 +838,8 @@ def parse_tlv(input_buffer: str, tag_fieldlen: int = 2, len_fieldlen: int = 3) -
         # _len = int(input_buffer[offset:(offset:=offset+len_fieldlen)])
         new_offset = offset+len_fieldlen
         _len, offset  = int(input_buffer[offset:new_offset]), new_offset
+        if _len < 0:
+            raise ValueError(f"Negative length {_len} of tag '{_tag}' at offset {offset-len_fieldlen}")
 
         # _value = input_buffer[offset:(offset:=offset+_len)]
         new_offset = offset+_len
